@@ -988,6 +988,46 @@ def f(o, l):
     return r, acc, o.peek()
 ''')
 
+
+corpus('''
+def f(l, n):
+    if len(l) < 3:
+        return None
+    a, *b, c = l
+    first, *rest = b + [n]
+    *init, last = rest or [0]
+    return a, b, c, first, rest, init, last
+''')
+
+
+corpus('''
+def f(l, n):
+    if not l:
+        return -1
+    x = l[0]
+    if len(l) < 3:
+        return x
+    y = l[2]
+    d = {1: 2, 5: 6}
+    if n not in d:
+        return x + y
+    z = d[n]
+    return x + y + z
+''')
+corpus('''
+def f(s, t):
+    if len(s) < 4:
+        raise ValueError
+    w = s[3]
+    tot = 0
+    for pair in t:
+        if len(pair) != 2:
+            continue
+        k, v = pair
+        tot += k * v
+    return w, tot
+''')
+
 # ---- input generation by parameter name ----------------------------------------------------------------------------------------
 
 
